@@ -174,6 +174,8 @@ mut("lexer_only_ascii_blank_separators", ["C14"], "parser.lex/inv/loop1[token-bo
     [("parser.go", "\t\t\t\tif unicode.IsSpace(r) {\n\t\t\t\t\tif i == start {", "\t\t\t\tif r == ' ' || r == '\\t' || r == '\\n' || r == '\\r' {\n\t\t\t\t\tif i == start {")], "only blank, tab, LF, CR separate tokens")
 mut("lexer_comma_not_a_delimiter", ["C14"], "parser.lex/",
     [("parser.go", 'if strings.ContainsRune("()[];,", r) {', 'if strings.ContainsRune("()[];", r) {')], "a comma no longer ends a token")
+mut("compile_checks_size_before_optimizing", ["C09"], "sweep/callorder:compile/Compile/optimize-before-check",
+    [("compiler.go", "\toptimize(conf, ast)\n\n\tres := check(ast)\n\tif res.err != nil {\n\t\treturn nil, res.err\n\t}\n", "\tres := check(ast)\n\tif res.err != nil {\n\t\treturn nil, res.err\n\t}\n\n\toptimize(conf, ast)\n")], "the size / arity limits are checked on the tree before optimisation")
 
 def main():
     out = os.path.join(os.path.dirname(os.path.abspath(__file__)), "mutants")
